@@ -356,6 +356,17 @@ static const char* SUBS =
     "waiter:\nwait 1000000000000\nend\n"
     "waiton local.e:\nlocal.e waittill \"never\"\nprintln \"@W\"\nend\n"
     "selfkill:\nprintln \"@K\"\nlocal delete\nprintln \"never\"\nend\n"
+    // sole-owner temporaries: values built in a callee and returned; the caller's operand stack holds the only reference
+    "mkarr local.w:\nif (local.w) { wait 0.5 }\n"
+    "local.a[1] = \"one\" + \"two\"\nlocal.a[2] = ( 1 2 3 )\nlocal.a[3] = level\nlocal.a[4] = 5\n"
+    "local.a[\"k\"][1] = 7\nlocal.a[\"k\"][2] = \"deep\" + \"er\"\nlocal.a[\"k\"][3] = ( 4 5 6 )\n"
+    "local.a[5] = (\"c\" + 1)::( 7 8 9 )::level::(1::(\"n\" + 2))\nlocal.a[6] = \"x\"[0]\n"
+    "local.a[7][1][1] = \"in\" + \"ner\"\nend local.a\n"
+    "mkcarr local.w:\nif (local.w) { wait 0.5 }\nend (\"one\" + \"two\")::( 1 2 3 )::level::((\"n\" + 2)::( 4 5 6 ))::5\n"
+    "mkstr local.w:\nif (local.w) { wait 0.5 }\nend (\"abc\" + 1)\n"
+    "mkvec local.w:\nif (local.w) { wait 0.5 }\nend ( 1 2 3 )\n"
+    "mklsn local.w:\nif (local.w) { wait 0.5 }\nlocal.e = spawn SimpleEntity\nlocal.e.foo = \"f\" + 1\nend local.e\n"
+    "mkone local.w:\nif (local.w) { wait 0.5 }\nlocal.a[1] = \"only\" + 1\nend local.a\n"
     // deleted-by-callee family: the victim is destroyed by a thread it is (transitively) waiting for
     "kill local.v local.how local.depth:\n"
     "if (local.depth > 1) {\nlocal.r = waitthread kill local.v local.how (local.depth - 1)\nprintln \"@K back\"\nend local.r\n}\n"
